@@ -68,23 +68,22 @@ func GetTimeFromTicks(intervalStart uint64, intervalsPerDay, intervalTicks uint3
 	const (
 		ticksPerIntervalDivSecsPerDay float64 = 49710.269629629629629629629629629
 		nanosecond                    float64 = 1000000000
-		subnanosecond                 float64 = 100000000
 	)
 
 	fractionalSeconds := float64(intervalTicks) / (float64(intervalsPerDay) * ticksPerIntervalDivSecsPerDay)
-	subseconds := nanosecond * (fractionalSeconds - math.Floor(fractionalSeconds))
-	if subseconds >= nanosecond {
-		subseconds -= nanosecond
-		fractionalSeconds++
-	}
-
-	// in order to keep compatibility with the old rewriteBuffer implemented in C with some round error,
-	// fractionalSeconds should be rounded here.
-	sec = intervalStart + uint64(math.Round(fractionalSeconds*subnanosecond)/subnanosecond)
+	// take the whole seconds and the sub-second part from the same floor, so that they always add up to
+	// fractionalSeconds, and carry when the sub-second part rounds up to a full second
+	wholeSeconds := math.Floor(fractionalSeconds)
+	subseconds := nanosecond * (fractionalSeconds - wholeSeconds)
 	// round the subseconds after the decimal point to minimize the cancellation error of subseconds
 	// round( subseconds ) = (int32_t)(subseconds + 0.5)
 	const round = 0.5
 	nanosec = uint32(subseconds + round)
+	if nanosec >= uint32(nanosecond) {
+		nanosec -= uint32(nanosecond)
+		wholeSeconds++
+	}
+	sec = intervalStart + uint64(wholeSeconds)
 
 	return sec, nanosec
 }
